@@ -7,6 +7,11 @@ import Kanzi.Model.Protocol
 import Kanzi.Drv.Stream
 import Kanzi.Drv.TrSmall
 import Kanzi.Drv.EntSmall
+import Kanzi.Drv.Names
+import Kanzi.Drv.Hash
+import Kanzi.Drv.IBS
+import Kanzi.Drv.OBS
+import Kanzi.Drv.Cli
 
 open Kanzi
 
@@ -163,4 +168,9 @@ def main (args : List String) : IO UInt32 := do
   | ["sr"] => loop stdin stdout Kanzi.Drv.sr; return 0
   | ["trsmall"] => loop stdin stdout Kanzi.Drv.trsmall; return 0
   | ["entsmall"] => loop stdin stdout Kanzi.Drv.entsmall; return 0
+  | ["names"] => loop stdin stdout Kanzi.Drv.names; return 0
+  | ["hash"] => loop stdin stdout Kanzi.Drv.hash; return 0
+  | ["ibs"] => loop stdin stdout Kanzi.Drv.ibs; return 0
+  | ["obs"] => loop stdin stdout Kanzi.Drv.obs; return 0
+  | ["cli"] => loop stdin stdout Kanzi.Drv.cli; return 0
   | _ => IO.eprintln "usage: kmodel <norm>"; return 2
